@@ -18,7 +18,8 @@ Tensor.grad (getter), for a tensor t with B := t._base:
   of view-creators, which is finite because creators are older than their results).
 
 Preconditions (type invariants established by Tensor._op, contracts/c_op.py C04.base): a view's creator has exactly one input p, and
-p._base is None => p is B, else p._base is B.  B._grad owns its memory (C12.OWNG of Operation.backward / Tensor.backward).
+p._base is None => p is B, else p._base is B.  B._grad has B's shape and layout (I1, I1') but need not own its memory (a caller's seed kept
+as it is, known finding F6, may be a window of a larger buffer): the contract speaks about memory regions (see the harness).
 """
 from __future__ import annotations
 
@@ -32,6 +33,11 @@ from pyvc.interp import Config, Ctx, GlobalCell, Interp, SRef, SymRaise, Unsuppo
 TB = "mygrad.tensor_base"
 GT = "mygrad._utils.graph_tracking"
 I = z3.IntSort()
+REGION = z3.Function("REGION", I, I)
+SUB = z3.Function("SUB", I, I, I)  # (tensor whose creator is the view-op, region of the source) -> region of the result
+SUBC = z3.Function("SUBC", I, I, I)
+GRADLIKE = z3.Function("GRADLIKE", I, z3.BoolSort())
+ORIGIN = z3.Function("ORIGIN", I, I)
 
 
 def harness(ctx: Ctx):
@@ -84,7 +90,14 @@ def harness(ctx: Ctx):
     nbase0 = H0[("ndarray", "base")]
     # ---- type invariants ------------------------------------------------------------------------------------------------
     ctx.assume(z3.Implies(base0 != 0, z3.And(1 <= base0, base0 <= top0, base0 != me.ref, H0[("Tensor", "_base")][base0] == 0)))
-    ctx.assume(z3.Implies(bgrad0 != 0, z3.And(1 <= bgrad0, bgrad0 <= top0, nbase0[bgrad0] == 0)))  # OWNG: the base's gradient owns its memory
+    # The base's gradient need NOT own its memory: Tensor.backward keeps a caller's seed of matching dtype/shape/layout as it is (known
+    # finding F6), and that seed may be a window of a larger buffer.  What the getter may rely on is the memory REGION an array covers:
+    #   REGION(a)          the set of bytes array a addresses (uninterpreted)
+    #   SUBC(t, R)         the region the chain of view-ops leading from the base to tensor t selects out of a base-shaped region R
+    #                      (one-step unfolding: SUBC(t, R) = SUB(t, R) if t's parent is the base, else SUB(t, SUBC(parent, R)))
+    #   GRADLIKE(a)        a has the base's shape and memory layout (every stored gradient of the base: I1 / I1')
+    #   ORIGIN(c)          ghost: the base-gradient array a cached window c was computed from
+    ctx.assume(z3.Implies(bgrad0 != 0, z3.And(1 <= bgrad0, bgrad0 <= top0, GRADLIKE(bgrad0))))
     ctx.assume(z3.Implies(z3.And(base0 != 0, creator0 != 0), z3.And(1 <= parent0, parent0 <= top0, parent0 != me.ref)))
     pb = H0[("Tensor", "_base")][parent0]
     ctx.assume(z3.Implies(z3.And(base0 != 0, creator0 != 0), z3.If(pb == 0, parent0 == base0, pb == base0)))  # INV-B
@@ -95,6 +108,19 @@ def harness(ctx: Ctx):
     for a in (vg0, bgrad0):
         ctx.assume(z3.Implies(nbase0[a] != 0, nbase0[nbase0[a]] == 0))
 
+    # one-step unfolding of SUBC at t, for the two base-shaped regions the proof talks about (the current gradient's, the cache origin's)
+    o0 = ORIGIN(vg0)
+    for R in (REGION(bgrad0), REGION(o0)):
+        ctx.assume(SUBC(me.ref, R) == z3.If(parent0 == base0, SUB(me.ref, R), SUB(me.ref, SUBC(parent0, R))))
+    # invariant of the cache (re-established by every cache write, obligation `cache_invariant_reestablished`): a cached window was cut, by
+    # t's own chain of view-ops, from an array that was a gradient of the base; NumPy reports the owner of that array's memory as its .base
+    # (or the cached array owns its memory -- a view-op replayed on a gradient of another layout copies; nothing is known about it then)
+    ctx.assume(z3.Implies(z3.And(vg0 != 0, nbase0[vg0] != 0), z3.And(o0 != 0, GRADLIKE(o0), nbase0[vg0] == z3.If(nbase0[o0] == 0, o0, nbase0[o0]), REGION(vg0) == SUBC(me.ref, REGION(o0)), nbase0[nbase0[o0]] == 0)))
+    # axiom (NumPy memory model): an array with the base's shape and layout that is a view of an OWNER with the same shape and layout covers
+    # exactly the owner's memory (the owner's buffer has no room for an offset)
+    for x, y in ((o0, bgrad0),):
+        ctx.assume(z3.Implies(z3.And(GRADLIKE(x), GRADLIKE(y), nbase0[x] == y, nbase0[y] == 0), REGION(x) == REGION(y)))
+
     meta = dict(function=f"{TB}:Tensor.grad")
     rec = {}
 
@@ -104,7 +130,8 @@ def harness(ctx: Ctx):
         r = ctx.fresh("parent_grad", "int")
         pbase = H("Tensor", "_base")[p.ref]
         ctx.assume(z3.And(r >= 0, r <= heap.cur_top))
-        ctx.assume(z3.If(pbase == 0, r == H("Tensor", "_grad")[p.ref], z3.Or(r == 0, root(r) == H("Tensor", "_grad")[pbase])))
+        pbg = H("Tensor", "_grad")[pbase]
+        ctx.assume(z3.If(pbase == 0, r == H("Tensor", "_grad")[p.ref], z3.Or(r == 0, z3.And(root(r) == root(pbg), REGION(r) == SUBC(p.ref, REGION(pbg))))))
         # frame of the callee: it may refresh `_view_grad` caches of the parent chain, never of `t` (t is not its own ancestor)
         newvg = z3.Array(f"VG!{ctx.fresh_n + 1}", I, I)
         ctx.fresh_n += 1
@@ -137,6 +164,7 @@ def harness(ctx: Ctx):
         out_t = heap.alloc("Tensor")
         arr = heap.new_array(base=root(g.ref))  # axiom: a view-op applied to g yields a view sharing g's memory
         heap.set("Tensor", "data", out_t.ref, arr.ref)
+        ctx.assume(REGION(arr.ref) == SUB(me_.ref, REGION(g.ref)))  # ... and addresses the part of g's region its view-op selects
         rec["replay_data"] = arr.ref
         return out_t
 
@@ -163,7 +191,11 @@ def harness(ctx: Ctx):
     ctx.oblige("C06.getter.owner.writes_nothing", z3.Implies(z3.Not(is_view), z3.And(*[cur[k] == H0[k] for k in H0])), **meta)
     # ---- views ----------------------------------------------------------------------------------------------------------
     rootr = z3.If(cur[("ndarray", "base")][rz] == 0, rz, cur[("ndarray", "base")][rz])
-    ctx.oblige("C06.getter.view.window_onto_current_base_gradient", z3.Implies(z3.And(is_view, rz != 0), z3.And(bgrad0 != 0, rootr == bgrad0)), **meta)
+    root_bg = z3.If(nbase0[bgrad0] == 0, bgrad0, nbase0[bgrad0])
+    ctx.oblige("C06.getter.view.window_onto_current_base_gradient", z3.Implies(z3.And(is_view, rz != 0), z3.And(bgrad0 != 0, rootr == root_bg)), **meta)
+    # ... and it is THE corresponding window: the bytes t's chain of view-ops selects out of the base's CURRENT gradient (a window cut from an
+    # earlier gradient that lives in the same buffer is refused)
+    ctx.oblige("C06.getter.view.is_the_corresponding_window_of_the_current_base_gradient", z3.Implies(z3.And(is_view, rz != 0), REGION(rz) == SUBC(me.ref, REGION(bgrad0))), **meta)
     parent_none = rec.get("parent_result") == 0 if "parent_result" in rec else z3.BoolVal(False)
     ctx.oblige("C06.getter.view.None_only_without_base_grad_or_graph", z3.Implies(z3.And(is_view, rz == 0), z3.Or(bgrad0 == 0, creator0 == 0, parent_none)), **meta)
     recomputed = any(e[0] == "replay" for e in log)
@@ -171,6 +203,9 @@ def harness(ctx: Ctx):
         ctx.oblige("C06.getter.view.replay_on_parents_gradient", rec.get("replay_arg") is not None and "parent_result" in rec and z3.And(rec["replay_arg"] == rec["parent_result"], rec["replay_recv"] == me.ref, rec["parent"] == parent0), **meta)
         ctx.oblige("C06.getter.view.replayed_without_graph_tracking", all(e[1] >= 1 for e in log if e[0] == "replay") and track["depth"] == 0, **meta)
         ctx.oblige("C06.getter.view.result_is_replayed_data_and_cached", z3.And(rz == rec["replay_data"], cur[("Tensor", "_view_grad")][me.ref] == rz), **meta)
+        # the cache invariant holds for what was written, with the current base gradient as its origin
+        nb = cur[("ndarray", "base")]
+        ctx.oblige("C06.getter.view.cache_invariant_reestablished", z3.Implies(is_view, z3.And(nb[rz] == root_bg, REGION(rz) == SUBC(me.ref, REGION(bgrad0)))), **meta)
     else:
         # without a replay the cache is left alone, or reset to None when the parent has no gradient to window onto
         reset = z3.And(parent_none, cur[("Tensor", "_view_grad")][me.ref] == 0) if "parent_result" in rec else z3.BoolVal(False)
